@@ -44,7 +44,7 @@ RC_KINDS = ["cat", "cat", "mr", "cat_date"]
 
 
 def gen_case(rng):
-    fam = rng.choice(["3d", "3d", "3d", "ca3d", "cubeset", "ca0th", "numeric"])
+    fam = rng.choice(["3d", "3d", "3d", "ca3d", "cubeset", "ca0th", "numeric", "single"])
     if fam == "3d":
         kinds = [rng.choice(T_KINDS), rng.choice(RC_KINDS), rng.choice(RC_KINDS)]
         case = sc.gen_case(rng, kinds=kinds, max_n=3)
@@ -65,6 +65,11 @@ def gen_case(rng):
         case = sc.gen_case(rng, kinds=kinds, max_n=3)
     elif fam == "ca0th":
         case = sc.gen_case(rng, kinds=["ca", rng.choice(RC_KINDS)], max_n=3)
+    elif fam == "single":
+        # a CubeSet of ONE response is that cube: same partitions (no CA-as-0th, no inflation)
+        kinds = rng.choice([["ca"], ["ca", rng.choice(RC_KINDS)], [rng.choice(T_KINDS), rng.choice(RC_KINDS)],
+                            [rng.choice(RC_KINDS)], [rng.choice(T_KINDS), rng.choice(RC_KINDS), rng.choice(RC_KINDS)]])
+        case = sc.gen_case(rng, kinds=kinds, max_n=3)
     else:
         case = sc.gen_case(rng, kinds=[rng.choice(["cat", "cat", "mr"])], max_n=4)
         v = gen.Var.from_json(case["vars"][0])
@@ -206,6 +211,25 @@ def evaluate(case, louts, ctx):
             firsts.append(repr(_get(cube.partitions[k], "counts")))
         if len(set(firsts)) >= 2:
             key = (fam, tuple(v.kind for v in vars_), firsts[0])
+    elif fam == "single":
+        resp = gen.cube_response(vars_, survey, w)
+        cs = CubeSet([copy.deepcopy(resp)], [None], pop, 0)
+        for attr in ("has_weighted_counts", "name", "is_ca_as_0th", "has_numeric_measures"):
+            common.call_impl(lambda: getattr(cs, attr))
+        ref = Cube(copy.deepcopy(resp), population=pop).partitions
+        psets = common.call_impl(lambda: [len(ps) for ps in cs.partition_sets])
+        if psets != [1] * len(ref):
+            findings.append({"kind": "spec", "locus": "single-set.partition_sets.shape", "detail": "%r vs %d partitions of the cube" % (psets, len(ref))})
+        else:
+            for k, rp in enumerate(ref):
+                part = cs.partition_sets[k][0]
+                kinds_ = sc.kinds_of(vars_)
+                ms = STRAND_MEASURES if len(kinds_) == 1 else [m for m in SLICE_MEASURES]
+                if common.call_impl(lambda: part.ndim) != common.call_impl(lambda: rp.ndim):
+                    findings.append({"kind": "spec", "locus": "single-set.partition.ndim", "detail": "partition %d" % k})
+                    continue
+                _compare_parts(findings, "single-set.partition", part, rp, ms, "partition %d" % k)
+            key = (fam, tuple(v.kind for v in vars_), repr(_get(ref[0], "counts")))
     elif fam == "cubeset":
         A = vars_[0]
         resps = [gen.cube_response([A], [(wt, [ans[0]]) for wt, ans in survey], w)]
@@ -260,6 +284,8 @@ def evaluate(case, louts, ctx):
         r1 = gen.cube_response([X], survey, w, extra_measures={"mean": data})
         plain = Cube(copy.deepcopy(r1), population=pop).partitions[0]
         cs = CubeSet([copy.deepcopy(r0), copy.deepcopy(r1)], [None, None], pop, 0)
+        for attr in ("has_weighted_counts", "available_measures", "name", "has_numeric_measures", "population_fraction"):
+            common.call_impl(lambda: getattr(cs, attr))      # reading set-level attributes first must not matter
         psets = common.call_impl(lambda: len(cs.partition_sets))
         if psets != 1:
             findings.append({"kind": "spec", "locus": "numeric.partition_sets.count", "detail": repr(psets)})
